@@ -25,6 +25,7 @@ type c10Arg struct {
 	PL     int    `json:"pl"`
 	Single bool   `json:"single"`
 	Seq    bool   `json:"seq"`
+	HoldWeb bool            `json:"holdweb,omitempty"` // the web seed answers only when the explorer lets it (last in the default order)
 	Gate   bool             `json:"gate,omitempty"` // piece writes are held until the explorer releases them
 	Cfg    map[string]int64 `json:"cfg,omitempty"` // configuration fields set to the given value (C17: small and zero-adjacent limits)
 	Source string `json:"src"` // peer | web | both | rain (a real rain seeding session, MSE negotiated)
@@ -149,6 +150,7 @@ func mkC10() *Scenario {
 		o.Script = append(o.Script, &ScriptItem{Label: "start", Do: func(w *World) { w.CmdStart() }})
 		if arg.Source == "web" || arg.Source == "both" || arg.Source == "web2" {
 			ws = w.NewWebSeed("10.9.9.9", g)
+			ws.Hold = arg.HoldWeb
 		}
 		if arg.Source == "web2" {
 			w.NewWebSeed("10.9.9.8", g)
@@ -305,6 +307,13 @@ func mkC10() *Scenario {
 			}
 		}
 		acts := StdActions(w)
+		if ws != nil && ws.Parked() > 0 {
+			// a held web seed answers after everything else (default: correctly; as a deviation: with an error)
+			acts = append(acts, Action{Label: "web:answer", Do: func(w *World) { ws.SetMode("ok"); ws.Release() }})
+			if arg.Adv {
+				acts = append(acts, Action{Label: "adv:web:answer-500", Do: func(w *World) { ws.SetMode("500"); ws.Release(); w.Vars["webfail"] = true }})
+			}
+		}
 		if mh != nil && mh.Connected() {
 			// the honest seed answers the metadata extension as well
 			mh.scan()
@@ -504,6 +513,21 @@ func TestC10(t *testing.T) {
 			runs = append(runs, Run{Scenario: "c10", Arg: a, Budget: 1, MaxExec: 20000})
 			n++
 		}
+	}
+	// peer + web seed whose answers are held until the peer has nothing left to do (the peer ends up idle while the
+	// web seed still owns a range), then an error answer as the single deviation
+	for i, l := range layouts {
+		if i%11 == 4 {
+			a := l
+			a.Source, a.Adv, a.HoldWeb = "both", true, true
+			runs = append(runs, Run{Scenario: "c10", Arg: a, Budget: 1, MaxExec: 20000})
+		}
+	}
+	// one larger torrent (8 pieces) fed by a peer and a held web seed with gated writes: ranges are stolen and
+	// truncated while results wait behind a write; two deviations (thorough tier: about 55 000 executions)
+	if core.Thorough() {
+		a := c10Arg{Files: []int{8*16384 + 5}, PL: 16384, Single: true, Source: "both", Adv: true, HoldWeb: true, Gate: true}
+		runs = append(runs, Run{Scenario: "c10", Arg: a, Budget: 2, MaxExec: 150000})
 	}
 	// peer + web seed with piece writes held: results of the web seed queue up behind a write while the peer goes on
 	for i, l := range layouts {
